@@ -157,6 +157,10 @@ class Machine:
         self.on_return_handlers = {}
         self.quiet = {}   # visible intrinsic -> predicate(m, alt, args): may run without a scheduling point
         self.models = []
+        self.deadline = None
+        self.lit_cache = {}
+        self.nlit = 0
+        self.lazy_split = bool(__import__("os").environ.get("GOBMC_LAZY"))
         self.debug_slow = bool(__import__("os").environ.get("GOBMC_SLOW"))
         import intrinsics
         intrinsics.install(self)
@@ -241,6 +245,33 @@ class Machine:
         if self.constraints:
             self.solver.add(*self.constraints)
         self.nchecks_since_reset = 0
+        self.lit_cache = {}
+
+    def lits_of(self, f):
+        """assumption literals for formula f: its top-level conjuncts, each non-trivial one named by a Boolean
+        constant whose definition stays asserted in the incremental solver (so its bit-blasted form and the
+        clauses learned about it are reused by later checks instead of being rebuilt per query)"""
+        cache = self.lit_cache
+        k = f.get_id()
+        ent = cache.get(k)
+        if ent is not None:
+            return ent[0]
+        if z3.is_and(f):
+            out = []
+            for ch in f.children():
+                out.extend(self.lits_of(ch))
+            out = tuple(out)
+        elif z3.is_const(f) and f.decl().kind() == z3.Z3_OP_UNINTERPRETED:
+            out = (f,)
+        elif z3.is_not(f) and z3.is_const(f.arg(0)) and f.arg(0).decl().kind() == z3.Z3_OP_UNINTERPRETED:
+            out = (f,)
+        else:
+            self.nlit += 1
+            p = z3.Bool("p!%d" % self.nlit)
+            self.solver.add(p == f)
+            out = (p,)
+        cache[k] = (out, f)
+        return out
 
     def add_constraint(self, c):
         c = _n(c)
@@ -263,6 +294,8 @@ class Machine:
             return r[0]
         import time, sys as _sys
         t0 = time.time()
+        if self.deadline is not None and t0 > self.deadline:
+            raise BoundExceeded("time budget exhausted (step %d)" % self.step)
         if self.debug_slow:
             fr_ = _sys._getframe(1)
             key_ = "%s:%d" % (fr_.f_code.co_name, fr_.f_lineno)
@@ -291,11 +324,11 @@ class Machine:
         if self.nchecks_since_reset > 300:
             self.reset_solver()
         self.solver.set("timeout", 250)
-        res = self.solver.check(f)
+        res = self.solver.check(*self.lits_of(f))
         if res == z3.unknown:
             self.stats["fresh_fallbacks"] = self.stats.get("fresh_fallbacks", 0) + 1
             self.reset_solver()
-            res = self.solver.check(f)
+            res = self.solver.check(*self.lits_of(f))
         self.solver_last = self.solver
         self.stats["solver_checks"] += 1
         r = (res != z3.unsat)
@@ -530,7 +563,7 @@ class Machine:
             return False
         if o["k"] != "r":
             raise Unsupported("union in non-register operand")
-        feas = [(g, x) for g, x in v.alts if self.feasible(alt.guard, g)]
+        feas = [(g, x) for g, x in v.alts if (AND(alt.guard, g) is not False and (self.lazy_split or self.feasible(alt.guard, g)))]
         if not feas:
             alt.guard = False
             raise _Dead()
@@ -572,6 +605,33 @@ class Machine:
         g, c = feas[0]
         alt.guard = AND(alt.guard, g)
         fr.regs[name] = c
+        raise _Retry()
+
+    def split_len(self, alt, fr, o, work):
+        """operand o is a slice with a symbolic length: continue once per feasible concrete length"""
+        v = self.ev(alt, fr, o)
+        if type(v) is Union:
+            self.split_reg(alt, fr, o, work)
+        if type(v) is not Slice or type(v.len) is int:
+            return
+        if o["k"] != "r":
+            raise Unsupported("symbolic-length slice in non-register operand")
+        name = o["n"]
+        feas = []
+        for c in range(v.cap + 1):
+            g = _n(v.len == c)
+            if self.feasible(alt.guard, g):
+                feas.append((g, c))
+        if not feas:
+            alt.guard = False
+            raise _Dead()
+        for g, c in feas[1:]:
+            b = self.fork_alt(alt, work)
+            b.guard = AND(alt.guard, g)
+            b.frames[-1].regs[name] = Slice(v.obj, v.path, v.off, c, v.cap)
+        g, c = feas[0]
+        alt.guard = AND(alt.guard, g)
+        fr.regs[name] = Slice(v.obj, v.path, v.off, c, v.cap)
         raise _Retry()
 
     # -- panics
@@ -1011,7 +1071,8 @@ def i_if(m, alt, fr, ins, work):
         m.goto(fr, 1)
         return
     ft = m.feasible(alt.guard, c)
-    ff = m.feasible(alt.guard, NOT(c))
+    # alt.guard itself is feasible (invariant of every running alternative): if c is impossible, !c is possible
+    ff = m.feasible(alt.guard, NOT(c)) if ft else True
     if ft and ff:
         b = m.fork_alt(alt, work)
         b.guard = AND(alt.guard, NOT(c))
@@ -1081,10 +1142,29 @@ def i_fieldaddr(m, alt, fr, ins, work):
 
 def i_indexaddr(m, alt, fr, ins, work):
     x = m.ev(alt, fr, ins["x"])
-    if type(x) is Union:
-        m.split_reg(alt, fr, ins["x"], work)
     idx = m.ev(alt, fr, ins["index"])
     t = m.T(ins["xt"])
+    if type(x) is Union:
+        if t["kind"] == "slice" and is_int_conc(idx) and all(type(sl) is Slice for g, sl in x.alts):
+            # several possible backing arrays: a guarded pointer, no path split
+            outs = []
+            for g, sl in x.alts:
+                if sl.obj is None or idx < 0 or idx >= sl.cap:
+                    m.sym_panic(alt, g, "index out of range", ins["pos"])
+                    continue
+                if is_int_conc(sl.len):
+                    if idx >= sl.len:
+                        m.sym_panic(alt, g, "index out of range", ins["pos"])
+                        continue
+                else:
+                    m.sym_panic(alt, AND(g, _n(z3.BitVecVal(idx, 64) >= sl.len)), "index out of range", ins["pos"])
+                outs.append((g, Ptr(sl.obj, sl.path + (sl.off + idx,))))
+            if not outs or alt.guard is False:
+                return DEAD
+            fr.regs[ins["r"]] = mk_union(outs)
+            fr.idx += 1
+            return
+        m.split_reg(alt, fr, ins["x"], work)
     if t["kind"] == "slice":
         n = x.len
     else:
@@ -1092,6 +1172,25 @@ def i_indexaddr(m, alt, fr, ins, work):
             m.do_panic(alt, Opaque("nil pointer dereference (index)"), ins["pos"])
             raise _Panicked()
         n = m.T(t["elem"])["len"]
+    if not is_int_conc(n):
+        # symbolic slice length: bounds check as a formula, index split over the capacity
+        if not is_int_conc(idx):
+            ib = m.bv(idx, _width_of(idx, 64))
+            if ib.size() < 64:
+                ib = z3.SignExt(64 - ib.size(), ib)
+            m.sym_panic(alt, _n(z3.Or(ib < 0, ib >= n)), "index out of range", ins["pos"])
+            if alt.guard is False or not m.feasible(alt.guard):
+                return DEAD
+            m.concretize(alt, fr, ins["index"], work, range(x.cap))
+        if idx < 0 or idx >= x.cap:
+            m.do_panic(alt, Opaque("index out of range [%d] with capacity %d" % (idx, x.cap)), ins["pos"])
+            raise _Panicked()
+        m.sym_panic(alt, _n(z3.BitVecVal(idx, 64) >= n), "index out of range", ins["pos"])
+        if alt.guard is False or not m.feasible(alt.guard):
+            return DEAD
+        fr.regs[ins["r"]] = Ptr(x.obj, x.path + (x.off + idx,))
+        fr.idx += 1
+        return
     if not is_int_conc(idx):
         if n == 0:
             m.do_panic(alt, Opaque("index out of range (empty)"), ins["pos"])
@@ -1235,6 +1334,8 @@ def i_convert(m, alt, fr, ins, work):
         def b2s(s):
             if s.obj is None:
                 return ""
+            if type(s.len) is not int:
+                raise Unsupported("symbolic-length bytes -> string")
             arr = nav(m.hget(alt, s.obj), s.path)
             data = arr[s.off:s.off + s.len]
             if not all(is_int_conc(b) for b in data):
@@ -1350,6 +1451,15 @@ def i_slice(m, alt, fr, ins, work):
         mx = cp
     if not is_int_conc(lo):
         m.concretize(alt, fr, ins["low"], work, range(cp + 1))
+    if not is_int_conc(hi) and is_int_conc(mx) and base_obj is not None and not (type(hi) is Union):
+        # symbolic upper bound (e.g. s[:len(s)-1] on a slice of symbolic length): the result has a symbolic length
+        hb = m.bv(hi, 64)
+        m.sym_panic(alt, _n(z3.Or(hb < lo, hb > mx)), "slice bounds out of range", ins["pos"])
+        if alt.guard is False or not m.feasible(alt.guard):
+            return DEAD
+        fr.regs[ins["r"]] = Slice(base_obj, base_path, off + lo, hb - lo if lo else hb, mx - lo)
+        fr.idx += 1
+        return
     if not is_int_conc(hi):
         m.concretize(alt, fr, ins["high"], work, range(cp + 1))
     if not is_int_conc(mx):
@@ -1651,6 +1761,8 @@ Machine.invoke_deferred_norm = invoke_deferred_norm
 
 
 def slice_elems(m, alt, s):
+    if type(s.len) is not int:
+        raise Unsupported("elements of a slice with symbolic length")
     if s.obj is None or s.len == 0:
         return ()
     arr = nav(m.hget(alt, s.obj), s.path)
@@ -1689,6 +1801,10 @@ def exec_builtin(m, alt, fr, ins, bname, args, argt, work):
         s, t = args
         if type(s) is Union or type(t) is Union:
             raise _NeedSplit(0 if type(s) is Union else 1)
+        if type(s) is Slice and type(s.len) is not int:
+            raise _NeedLen(0)
+        if type(t) is Slice and type(t.len) is not int:
+            raise _NeedLen(1)
         if type(t) is str:
             extra = tuple(t.encode("utf-8"))
         else:
@@ -1712,6 +1828,10 @@ def exec_builtin(m, alt, fr, ins, bname, args, argt, work):
         d, s = args
         if type(d) is Union or type(s) is Union:
             raise _NeedSplit(0 if type(d) is Union else 1)
+        if type(d) is Slice and type(d.len) is not int:
+            raise _NeedLen(0)
+        if type(s) is Slice and type(s.len) is not int:
+            raise _NeedLen(1)
         src = tuple(s.encode("utf-8")) if type(s) is str else slice_elems(m, alt, s)
         n = min(d.len, len(src))
         if n > 0:
@@ -1748,6 +1868,11 @@ class _NeedSplit(Exception):
         self.i = i
 
 
+class _NeedLen(Exception):
+    def __init__(self, i):
+        self.i = i
+
+
 class _NeedSplitArg(Exception):
     """an intrinsic needs argument i narrowed to one union alternative"""
     def __init__(self, i):
@@ -1763,6 +1888,9 @@ def do_builtin(m, alt, fr, ins, call, work):
         r = exec_builtin(m, alt, fr, ins, bname, args, call.get("argt", []), work)
     except _NeedSplit as e:
         m.split_reg(alt, fr, call["args"][e.i], work)
+        raise
+    except _NeedLen as e:
+        m.split_len(alt, fr, call["args"][e.i], work)
         raise
     if "r" in ins:
         fr.regs[ins["r"]] = r
